@@ -78,6 +78,8 @@ pub struct Sim {
     pub node_ctx: TestNodeContext,
     pub chan_ctx: TestChannelContext,
     pub extra_channels: Vec<ChannelId>,
+    /// the dbids of `extra_channels` (the protocol handler addresses a channel by peer id and dbid)
+    pub extra_dbids: Vec<u64>,
     pub hash_ctr: u32,
     /// headers of the blocks we added ourselves (for removals): (header-pair before the block)
     pub prev_tips: Vec<Headers>,
@@ -335,6 +337,7 @@ impl Sim {
             node_ctx,
             chan_ctx,
             extra_channels: vec![],
+            extra_dbids: vec![],
             hash_ctr: 0,
             prev_tips: vec![],
             pending_muts_after_err: 0,
@@ -534,6 +537,66 @@ impl Sim {
         })
     }
 
+    fn channel_call(&mut self, msg: vls_protocol::msgs::Message) -> (Outcome, usize) {
+        use vls_protocol_signer::handler::Handler;
+        self.txn(move |s| {
+            let h = s.channel_handler(6);
+            h.handle(msg).map(|_| ()).map_err(|e| match e {
+                vls_protocol_signer::handler::Error::Signing(st) => st,
+                other => Status::internal(format!("{:?}", other)),
+            })
+        })
+    }
+
+    /// `SignRemoteCommitmentTx2` through the real protocol handler (`world h`): the same request as `scp d var`
+    pub fn handler_sign_cp(&mut self, d: i64, var: u64) -> (Outcome, usize) {
+        use vls_protocol::model::{Htlc, PubKey, Sha256};
+        use vls_protocol::msgs::{self, Message};
+        let (_, _, _, cpn, _) = self.counters();
+        let n = (cpn as i64 + d).max(0) as u64;
+        let (a, b, offered, received, feerate) = self.content(var);
+        let (to_holder, to_counterparty, offered, received) =
+            if n == 0 { (CHANNEL_VALUE - 1_000, 0, vec![], vec![]) } else { (a, b, received, offered) };
+        let feerate = if n == 0 { 0 } else { feerate };
+        let point = if self.rogue.contains(&n) { rogue_point(n) } else { cp_point(n) };
+        // the arm takes the REMOTE side as offered and the LOCAL side as received (it "flips" for the counterparty's tx)
+        let mut htlcs: Vec<Htlc> = vec![];
+        for (side, l) in [(Htlc::REMOTE, &offered), (Htlc::LOCAL, &received)] {
+            for x in l {
+                htlcs.push(Htlc { side, amount: x.value_sat * 1000, payment_hash: Sha256(x.payment_hash.0), ctlv_expiry: x.cltv_expiry });
+            }
+        }
+        self.channel_call(Message::SignRemoteCommitmentTx2(msgs::SignRemoteCommitmentTx2 {
+            remote_per_commitment_point: PubKey(point.serialize()),
+            commitment_number: n,
+            feerate,
+            to_local_value_sat: to_holder,
+            to_remote_value_sat: to_counterparty,
+            htlcs: htlcs.into(),
+        }))
+    }
+
+    /// `ValidateRevocation` through the real protocol handler (`world h`): the same request as `cpr d g|b`
+    pub fn handler_cp_revoke(&mut self, d: i64, good: bool) -> (Outcome, usize) {
+        use vls_protocol::msgs::{self, Message};
+        let (_, _, _, _, rn) = self.counters();
+        let n = (rn as i64 + d).max(0) as u64;
+        let right = if self.rogue.contains(&n) { rogue_secret(n) } else { cp_secret(n) };
+        let secret = if good { right } else { cp_secret(n + 7) };
+        self.channel_call(Message::ValidateRevocation(msgs::ValidateRevocation {
+            commitment_number: n,
+            commitment_secret: vls_protocol::model::DisclosedSecret(secret.secret_bytes()),
+        }))
+    }
+
+    /// `SignLocalCommitmentTx2` through the real protocol handler (`world h`): the same request as `sh d`
+    pub fn handler_sign_holder(&mut self, d: i64) -> (Outcome, usize) {
+        use vls_protocol::msgs::{self, Message};
+        let (next, ..) = self.counters();
+        let n = (next as i64 - 1 + d).max(0) as u64;
+        self.channel_call(Message::SignLocalCommitmentTx2(msgs::SignLocalCommitmentTx2 { commitment_number: n }))
+    }
+
     pub fn revoke(&mut self, d: i64) -> (Outcome, usize) {
         let (next, ..) = self.counters();
         let n = (next as i64 + d).max(0) as u64;
@@ -723,8 +786,54 @@ impl Sim {
         });
         if r.0 == Outcome::Ok && !self.extra_channels.contains(&id) {
             self.extra_channels.push(id);
+            self.extra_dbids.push(nn);
         }
         r
+    }
+
+    /// one request through the real `RootHandler::handle` (vls-protocol-signer), inside a persister transaction
+    fn root_call(&mut self, msg: vls_protocol::msgs::Message) -> (Outcome, usize) {
+        use vls_protocol_signer::handler::Handler;
+        self.txn(move |s| {
+            let h = s.root_handler();
+            let r = std::panic::catch_unwind(std::panic::AssertUnwindSafe(|| h.handle(msg)));
+            match r {
+                Err(_) => Err(Status::internal("handler aborted")),
+                Ok(Ok(_reply)) => Ok(()),
+                Ok(Err(e)) => Err(match e { vls_protocol_signer::handler::Error::Signing(st) => st, other => Status::internal(format!("{:?}", other)) }),
+            }
+        })
+    }
+
+    /// `NewChannel` through the protocol handler's arm (same peer as `new_channel`)
+    pub fn handler_new_channel(&mut self, nn: u64) -> (Outcome, usize) {
+        use vls_protocol::msgs::{self, Message};
+        let peer = make_test_pubkey(2).serialize();
+        let id = ChannelId::new_from_peer_id_and_oid(&peer, nn);
+        let r = self.root_call(Message::NewChannel(msgs::NewChannel { peer_id: vls_protocol::model::PubKey(peer), dbid: nn }));
+        if r.0 == Outcome::Ok && !self.extra_channels.contains(&id) {
+            self.extra_channels.push(id);
+            self.extra_dbids.push(nn);
+        }
+        r
+    }
+
+    /// `ForgetChannel` through the protocol handler's arm; the handler addresses a channel by (peer, dbid), so only
+    /// the channels created by `newch` / `HNEW` can be named: for `which = 0` or without such a channel this is `forget`
+    pub fn handler_forget(&mut self, which: u64) -> (Outcome, usize) {
+        use vls_protocol::msgs::{self, Message};
+        if which == 0 || self.extra_channels.is_empty() {
+            return self.forget(which);
+        }
+        let dbid = self.extra_dbids[(which as usize - 1) % self.extra_dbids.len()];
+        let peer = make_test_pubkey(2).serialize();
+        self.root_call(Message::ForgetChannel(msgs::ForgetChannel { node_id: vls_protocol::model::PubKey(peer), dbid }))
+    }
+
+    /// `GetHeartbeat` through the protocol handler's arm
+    pub fn handler_heartbeat(&mut self) -> (Outcome, usize) {
+        use vls_protocol::msgs::{self, Message};
+        self.root_call(Message::GetHeartbeat(msgs::GetHeartbeat {}))
     }
 
     /// `setup_channel` on stub `nn` with a setup the policy refuses (kind 0: holder delay below the
@@ -1137,6 +1246,9 @@ pub fn exec_op(sim: &mut Sim, op: &str) -> (Outcome, usize) {
         ["HVH", d, sig, var] => { assert!(sim.hworld, "HVH outside world h"); sim.handler_validate(num(d), *sig == "g", num(var) as u64, 6) }
         ["HVHO", d, sig, var] => { assert!(sim.hworld, "HVHO outside world h"); sim.handler_validate(num(d), *sig == "g", num(var) as u64, 4) }
         ["HRV", d] => { assert!(sim.hworld, "HRV outside world h"); sim.handler_revoke(num(d)) }
+        ["HSCP", d, var] => { assert!(sim.hworld, "HSCP outside world h"); sim.handler_sign_cp(num(d), num(var) as u64) }
+        ["HCPR", d, g] => { assert!(sim.hworld, "HCPR outside world h"); sim.handler_cp_revoke(num(d), *g == "g") }
+        ["HSH", d] => { assert!(sim.hworld, "HSH outside world h"); sim.handler_sign_holder(num(d)) }
         ["hvh", d, sig, var] => sim.validate_holder_full(num(d), *sig == "g", num(var) as u64, false, 1),
         ["hvh1", d, sig, var] => sim.validate_holder_full(num(d), *sig == "g", num(var) as u64, true, 1),
         ["hvho", d, sig, var] => sim.validate_holder_full(num(d), *sig == "g", num(var) as u64, false, 2),
@@ -1161,6 +1273,9 @@ pub fn exec_op(sim: &mut Sim, op: &str) -> (Outcome, usize) {
         ["newch", nn] => sim.new_channel(num(nn) as u64),
         ["forget", w] => sim.forget(num(w) as u64),
         ["hb"] => sim.heartbeat(),
+        ["HNEW", nn] => sim.handler_new_channel(num(nn) as u64),
+        ["HFORGET", w] => sim.handler_forget(num(w) as u64),
+        ["HHB"] => sim.handler_heartbeat(),
         ["blk+", g] => sim.add_block(*g == "g"),
         ["HBLK+", g] => sim.handler_add_block(*g == "g"),
         ["blkn", n] => sim.add_blocks(num(n) as u64),
@@ -1186,7 +1301,18 @@ pub fn gen_ops(rng: &mut Rng, len: usize) -> Vec<String> {
     let mut ops = Vec::new();
     while ops.len() < len {
         // legit bursts keep the channel moving so that refusals are reached from many states
-        match rng.below(14) {
+        match rng.below(15) {
+            14 => {
+                // issued invoices: the same one again, a different one for the same hash, and what survives a restart
+                // (an issued invoice is written with the next node entry: a keysend in between makes it durable)
+                let h = rng.below(3);
+                let a = *rng.pick(&[100_000u64, 1_000, 0]);
+                ops.push(format!("sinv {} {}", h, a));
+                if rng.chance(1, 2) { ops.push(format!("ks {}", *rng.pick(&[1000u64, 2000]))); }
+                if rng.chance(1, 2) { ops.push("restart".to_string()); }
+                ops.push(format!("sinv {} {}", h, *rng.pick(&[a, 1_000, 5_000])));
+                continue;
+            }
             13 if ops.len() < 4 => {
                 // a FULL channel map that holds garbage (stubs aged past the prune horizon, or just short of it), and
                 // then creations that are refused: for an id at or below the high-water mark, and because the map is full
